@@ -4,6 +4,8 @@
 -/
 import VM.Proofs.RulesProof
 import VM.Proofs.InheritProof
+import VM.Proofs.PipelineProof
+import VM.Impl.SpecModel
 namespace VM.C03
 open VM Sw Rules
 
@@ -55,6 +57,53 @@ theorem C03_inheritance_rules (defs : String → Option Schema) (l : List (Strin
 /-- the walk reports a reference exactly when it is followed twice on one way down (any nesting bound) -/
 theorem C03_circular_iff (defs : String → Option Schema) (fuel : Nat) (nm : String) (sch : Schema) (path : List String) :
     (circAnc defs fuel nm sch path).1 ≠ [] ↔ Revisits defs fuel sch path := circAnc_iff defs fuel nm sch path
+
+/-! ### the whole of `Validate` (continue-on-errors): accepted exactly when the schema pass, the rules and the values agree -/
+
+theorem errors_nil_iff (l : List Msg) : l = [] ↔ ∀ m, m ∉ l := List.eq_nil_iff_forall_not_mem
+
+/-- **Acceptance by the model of the whole of `Validate`.** With continue-on-errors, the main result carries no error exactly
+    when the Swagger schema pass reports none, every documented rule holds (`RulesHold`) and the default and example stages
+    report none — no stage is skipped, none is merged twice, nothing else can raise an error. -/
+theorem C03_whole_accepts_iff (O : Oracles) (raw : JVal) (v0 v : View) (hk : DistinctKeys v.ops) :
+    (specModel true O raw v0 v).1.errors = [] ↔
+      ((schemaPassRes O raw).errors = [] ∧ RulesHold O v
+        ∧ (valueStage DCfg.asIs (modelJudges O (defsLookup v0)) .dflt O v).errors = []
+        ∧ (valueStage DCfg.asIs (modelJudges O (defsLookup v0)) .exmp O v).errors = []) := by
+  rw [← C03_rules O v hk]
+  have hrun : (specModel true O raw v0 v).1.errors = (runStages true (modelStages O raw v0 v)).errors := rfl
+  rw [hrun]
+  simp only [errors_nil_iff]
+  have hmem : ∀ m, m ∈ (runStages true (modelStages O raw v0 v)).errors ↔
+      (m ∈ (schemaPassRes O raw).errors ∨ m ∈ extraRuleErrs O v
+        ∨ m ∈ (valueStage DCfg.asIs (modelJudges O (defsLookup v0)) .dflt O v).errors
+        ∨ m ∈ (valueStage DCfg.asIs (modelJudges O (defsLookup v0)) .exmp O v).errors) := by
+    intro m
+    simp only [runStages, Bool.not_true, Bool.false_and, Bool.false_eq_true, ↓reduceIte, mem_mergeAll_errors, mem_mergeOne_errors,
+      Stages.middle, Stages.late, modelStages, msgsRes, extraRuleErrs, List.mem_cons, List.not_mem_nil, or_false, exists_eq_or_imp,
+      List.mem_append, exists_false, false_or]
+    simp only [exists_eq_left, List.not_mem_nil, or_false]
+    generalize (m ∈ (schemaPassRes O raw).errors) = a0
+    generalize (m ∈ referenceErrs v) = a1
+    generalize (m ∈ dupOperationIDs v) = a2
+    generalize (m ∈ duplicatePropertyErrs (defsLookup v) v.defs) = a3
+    generalize (m ∈ parameterErrs O v) = a4
+    generalize (m ∈ itemsErrs O (fun _ => none) v) = a5
+    generalize (m ∈ requiredDefinitionErrs O v) = a6
+    generalize (m ∈ pathNameErrs v) = a7
+    generalize (m ∈ (valueStage DCfg.asIs (modelJudges O (defsLookup v0)) Which.dflt O v).errors) = a8
+    generalize (m ∈ (valueStage DCfg.asIs (modelJudges O (defsLookup v0)) Which.exmp O v).errors) = a9
+    simp only [or_assoc, or_comm, or_left_comm]
+  constructor
+  · intro h
+    refine ⟨fun m hm => h m ((hmem m).mpr (.inl hm)), fun m hm => h m ((hmem m).mpr (.inr (.inl hm))),
+      fun m hm => h m ((hmem m).mpr (.inr (.inr (.inl hm)))), fun m hm => h m ((hmem m).mpr (.inr (.inr (.inr hm))))⟩
+  · rintro ⟨h1, h2, h3, h4⟩ m hm
+    rcases (hmem m).mp hm with h | h | h | h
+    · exact h1 m h
+    · exact h2 m h
+    · exact h3 m h
+    · exact h4 m h
 
 /-! ### the path-template scanner (helpers.go:130-158) -/
 
